@@ -92,11 +92,16 @@ class Real(Spec):
 
 
 class Int(Spec):
-    def __init__(self, lo=0, hi=10):
+    def __init__(self, lo=0, hi=10, assume=False):
         self.lo, self.hi = lo, hi
+        self.assume = assume
 
     def sym(self, B, name):
-        return B.leaf(name, 'int', self)
+        v = B.leaf(name, 'int', self)
+        if self.assume:
+            B.assume(v.t >= self.lo)
+            B.assume(v.t <= self.hi)
+        return v
 
     def sample(self, rng, name, asg):
         asg[name] = rng.randint(self.lo, self.hi)
@@ -555,25 +560,45 @@ class Token(Spec):
     """an unknown separator-free word of symbolic length in [lo, hi]"""
 
     def __init__(self, lo=1, hi=30, alphabet=None, excl=None,
-                 first_nondigit=False):
+                 first_nondigit=False, may_contain=()):
         self.lo, self.hi = lo, hi
         self.alphabet = alphabet
         self.excl = excl
         self.first_nondigit = first_nondigit
+        self.may_contain = tuple(may_contain)
 
     def sym(self, B, name):
         from .sstr import SStr, Tok
-        n = B.leaf(name + '.len', 'int', Int(self.lo, self.hi))
-        B.assume(n.t >= self.lo)
-        B.assume(n.t <= self.hi)
-        return SStr([Tok(name, n, self.excl, self.first_nondigit)])
+        if self.lo == self.hi:
+            n = self.lo
+        else:
+            n = B.leaf(name + '.len', 'int', Int(self.lo, self.hi))
+            B.assume(n.t >= self.lo)
+            B.assume(n.t <= self.hi)
+        flags = None
+        if self.may_contain:
+            leaves = {}
+            for nd in self.may_contain:
+                if len(nd) <= self.hi:
+                    leaves[nd] = B.leaf('%s.has.%s' % (name, nd), 'bool', Bool())
+
+            def flags(needle, leaves=leaves):
+                if needle in leaves:
+                    return leaves[needle]
+                # any other needle: unknown content
+                raise Unsupported('content of an unknown word (%r)' % needle)
+        return SStr([Tok(name, n, self.excl, self.first_nondigit, flags)])
 
     def sample(self, rng, name, asg):
-        asg[name + '.len'] = rng.randint(self.lo, self.hi)
+        if self.lo != self.hi:
+            asg[name + '.len'] = rng.randint(self.lo, self.hi)
+        for nd in self.may_contain:
+            if len(nd) <= self.hi:
+                asg['%s.has.%s' % (name, nd)] = rng.random() < 0.15
 
     def desc(self, name, asg):
         import hashlib
-        L = int(asg[name + '.len'])
+        L = int(asg.get(name + '.len', self.lo))
         alphabet = self.alphabet or ('abcdefghijklmnopqrstuvwxyzABCDEFGHIJKLMNOP'
                                      'QRSTUVWXYZ0123456789_()*-+=.')
         letters = [ch for ch in alphabet if ch.isalpha()] or list(alphabet)
@@ -585,10 +610,45 @@ class Token(Spec):
             pool = letters if (k == 0 and self.first_nondigit) else alphabet
             chars.append(pool[dig[k] % len(pool)])
         txt = ''.join(chars)
+        # content flags: embed / avoid the listed needles
+        for nd in self.may_contain:
+            if len(nd) > L:
+                continue
+            if asg.get('%s.has.%s' % (name, nd)):
+                k = dig[-1] % (L - len(nd) + 1)
+                txt = txt[:k] + nd + txt[k + len(nd):]
+        for nd in self.may_contain:
+            if not asg.get('%s.has.%s' % (name, nd)) and nd in txt:
+                txt = txt.replace(nd[0], 'q' if nd[0] != 'q' else 'z')
         return {'k': 'const', 'v': txt}
 
     def leaf_names(self, name):
         return [name + '.len']
+
+
+class WrittenFile(Spec):
+    """a text file whose contents are produced by a real writer function
+    from the other (symbolic) arguments of the contract: symbolically the
+    writer's AST is executed and its text becomes the file; natively the
+    writer is called and the text written to a temporary file."""
+
+    def __init__(self, writer, arg_names, **const_kwargs):
+        self.writer = writer
+        self.arg_names = arg_names          # {writer kwarg: contract arg name}
+        self.const_kwargs = const_kwargs
+
+    def sym(self, B, name):
+        from .models import FileV
+        it = B.interp
+        w = it.resolve(self.writer)
+        kw = {k: B.built[v] for k, v in self.arg_names.items()}
+        kw.update({k: _to_sym_const(v) for k, v in self.const_kwargs.items()})
+        text = it.call(w, [], kw)
+        return FileV(text)
+
+    def desc(self, name, asg):
+        return {'k': 'written_file', 'writer': self.writer,
+                'args': dict(self.arg_names), 'kwargs': dict(self.const_kwargs)}
 
 
 class ClassRef(Spec):
@@ -611,7 +671,8 @@ class Contract:
                  raises=None, warns=None, shapes=None, shapes_thorough=None,
                  label=None,
                  may_raise=(), returns=None, modular=False, note=None,
-                 cross_check=True, frame=None, ghost=None, tier='quick'):
+                 cross_check=True, frame=None, ghost=None, tier='quick',
+                 options=None):
         self.target = target
         self.prop = prop
         self.args = args              # dict or callable(**shape) -> dict
@@ -630,6 +691,7 @@ class Contract:
         self.frame = frame
         self.ghost = ghost or {}
         self.tier = tier
+        self.options = options or {}
 
     @property
     def name(self):
